@@ -3,8 +3,8 @@ import LitexProofs.Fhdl.BlockEquiv
   The printer's own sign flag (second component of `_generate_expression`, which decides where
   `$signed({1'd0, x})` promotions are inserted) agrees with the self-determined type IEEE 1364 gives the printed
   text — since the repairs of `_generate_constant` (signed literals), `_generate_operator` (comparisons unsigned)
-  and `_generate_slice` (selects unsigned, 1-bit signed operands wrapped) — except below a shift with a signed
-  amount (`signFlagsOk`).
+  (comparisons unsigned, shifts typed by their left operand) and `_generate_slice` (selects unsigned, 1-bit signed
+  operands wrapped) — for every expression.
 -/
 namespace Litex.C01
 
@@ -14,32 +14,26 @@ theorem selfSigned_prom (b : Bool) (r : VExpr) (s : Bool) (h : s = selfSigned r)
     selfSigned (if b then toSignedV r else r) = (b || s) := by
   cases b <;> simp [selfSigned_toSignedV, h]
 
-theorem printE_sign : ∀ (e : Expr), signFlagsOk e = true → (printE e).2 = selfSigned (printE e).1
-  | .const v w s, _ => by
+theorem printE_sign : ∀ (e : Expr), (printE e).2 = selfSigned (printE e).1
+  | .const v w s => by
     cases s <;> simp [printE, printConst, selfSigned, selfSigned_printConstU]
-  | .sig i w s, _ => by simp [printE, selfSigned]
-  | .op1 .neg a, h => by
-    simp only [signFlagsOk] at h
-    have ih := printE_sign a h
+  | .sig i w s => by simp [printE, selfSigned]
+  | .op1 .neg a => by
+    have ih := printE_sign a
     simp only [printE, selfSigned]
     cases hs : (printE a).2
     · simp [selfSigned_toSignedV]
     · rw [hs] at ih; simp [← ih]
-  | .op1 .not a, h => by
-    simp only [signFlagsOk] at h
-    simpa [printE, selfSigned] using printE_sign a h
-  | .op2 o a b, h => by
-    simp only [signFlagsOk, Bool.or_eq_true] at h
+  | .op1 .not a => by
+    simpa [printE, selfSigned] using printE_sign a
+  | .op2 o a b => by
+    have iha := printE_sign a
+    have ihb := printE_sign b
     simp only [printE]
     by_cases hsft : o.isShift = true
-    · have hc : o.isCmp = false := by cases o <;> simp_all [Op2.isShift, Op2.isCmp]
-      have hv : (vop o).isCmp = false := by cases o <;> simp_all [vop, VBin.isCmp, Op2.isShift]
+    · have hv : (vop o).isCmp = false := by cases o <;> simp_all [vop, VBin.isCmp, Op2.isShift]
       have hvs : (vop o).isShift = true := by cases o <;> simp_all [vop, VBin.isShift, Op2.isShift]
-      simp only [hc, Bool.false_eq_true, false_or, hsft, if_true, Bool.and_eq_true, Bool.or_eq_true,
-        Bool.not_eq_true'] at h
-      have ih := printE_sign a h.1
-      simp only [hsft, if_true, selfSigned, hv, hvs, Bool.false_eq_true, if_false, ← ih]
-      rcases h.2 with h2 | h2 <;> simp [h2]
+      simp only [hsft, if_true, selfSigned, hv, hvs, Bool.false_eq_true, if_false, ← iha]
     · have hsft' : o.isShift = false := by simpa using hsft
       simp only [hsft', Bool.false_eq_true, if_false]
       by_cases hc : o.isCmp = true
@@ -48,29 +42,24 @@ theorem printE_sign : ∀ (e : Expr), signFlagsOk e = true → (printE e).2 = se
       · have hc' : o.isCmp = false := by simpa using hc
         have hv : (vop o).isCmp = false := by cases o <;> simp_all [vop, VBin.isCmp, Op2.isCmp]
         have hvs : (vop o).isShift = false := by cases o <;> simp_all [vop, VBin.isShift, Op2.isShift]
-        simp only [hc', Bool.false_eq_true, false_or, hsft', if_false, Bool.and_eq_true] at h
-        have iha := printE_sign a h.1
-        have ihb := printE_sign b h.2
         simp only [selfSigned, hv, hvs, Bool.false_eq_true, if_false, hc', Bool.not_false, Bool.true_and]
         rw [selfSigned_prom _ _ _ iha, selfSigned_prom _ _ _ ihb]
         cases (printE a).2 <;> cases (printE b).2 <;> rfl
-  | .mux c a b, h => by
-    simp only [signFlagsOk, Bool.and_eq_true] at h
-    have iha := printE_sign a h.1
-    have ihb := printE_sign b h.2
+  | .mux c a b => by
+    have iha := printE_sign a
+    have ihb := printE_sign b
     simp only [printE, selfSigned]
     rw [selfSigned_prom _ _ _ iha, selfSigned_prom _ _ _ ihb]
     cases (printE a).2 <;> cases (printE b).2 <;> rfl
-  | .slice a lo hi, h => by
-    simp only [signFlagsOk] at h
-    have ih := printE_sign a h
+  | .slice a lo hi => by
+    have ih := printE_sign a
     simp only [printE]
     split
     · cases hs : (printE a).2
       · rw [hs] at ih; simp [← ih]
       · simp [selfSigned]
     · split <;> simp [selfSigned]
-  | .cat l, _ => by simp [printE, selfSigned]
-  | .rep a n, _ => by simp [printE, selfSigned]
+  | .cat l => by simp [printE, selfSigned]
+  | .rep a n => by simp [printE, selfSigned]
 
 end Litex.C01
